@@ -8,6 +8,7 @@ class numpy:
             np = tracer.signature.python.import_("numpy", as_="np")
 
         self.ndarray = np.ndarray
+        self.generic = np.generic
         self.ndarray.__getitem__ = signature.classical.getitem()
 
         self.asarray = signature.classical.preserve_shape(np.asarray)
